@@ -185,6 +185,14 @@ def steps(case, result):
                 returned.append((name, client.mailfrom(call[1]), None))
                 if not pipelining:
                     out += sync_check(name)
+            elif name == 'bad-address':
+                # an address that cannot be sent (non-ASCII, SMTPUTF8 not on offer): the call fails, nothing was sent and no reply is owed
+                try:
+                    getattr(client, call[1])('b\u00e9b\u00e9@y.org')
+                except UnicodeError:
+                    pass
+                else:
+                    out.append(('C10:non-ascii-address-sent-without-smtputf8', desc))
             elif name == 'rcptto':
                 returned.append((name, client.rcptto(call[1]), call[1]))
                 if not pipelining:
@@ -308,7 +316,12 @@ def case_strategy(draw):
     for t in range(draw(st.integers(1, 3))):
         if draw(st.integers(0, 5)) == 0:
             add(['custom', 'NOOP', ''])
+        utf8_off = not (hcode == '250' and hello != 'helo' and 'SMTPUTF8' in hl)
+        if utf8_off and draw(st.integers(0, 7)) == 0:
+            calls.append(['bad-address', 'mailfrom'])
         add(['mailfrom', 's%d@x.org' % t])
+        if utf8_off and draw(st.integers(0, 5)) == 0:
+            calls.append(['bad-address', 'rcptto'])
         nr = draw(st.integers(0, 4))
         rcpt_codes = []
         for k in range(nr):
